@@ -971,6 +971,12 @@ func (t *storeWrap) GetOpener() sts.Open {
 			// reading the request body) sees the stream break
 			return nil, errConn
 		}
+		// hashing and payload encoding open source files: a boundary action, so that
+		// stops and crashes can also arrive in the middle of a scan's hashing phase
+		t.s.action("store:open")
+		if t.s.isDead() {
+			return nil, errConn
+		}
 		return t.s.store.Open(f)
 	}
 }
